@@ -30,28 +30,35 @@ def build_judge():
     """Returns a command prefix that judges a trace file given as last argument."""
     WORK.mkdir(parents=True, exist_ok=True)
     try:
-        with flock("lake"):
-            run(["lake", "build"] + ["OVM.Registry.%s:o" % m for m in JUDGE_MODULES], cwd=LEAN, timeout=1800)
-        objs = []
-        for m in JUDGE_MODULES:
-            cands = sorted((LEAN / ".lake" / "build" / "ir" / "OVM" / "Registry").glob(m + ".c.o*"))
-            cands = [c for c in cands if c.suffix in (".export", ".o", ".noexport") and not c.name.endswith((".hash", ".trace"))]
-            pick = next((c for c in cands if c.name.endswith(".export")), cands[0] if cands else None)
-            if pick is None:
-                raise RuntimeError("no object file for " + m)
-            objs.append(pick)
-        key = sha(*[o.read_bytes() for o in objs])
-        exe = WORK / ("propjudge-" + key)
-        if not exe.exists():
-            for old in WORK.glob("propjudge-*"):
-                old.unlink()
-            tmp = exe.with_suffix(".tmp")
-            run(["lake", "env", "leanc", "-o", str(tmp)] + [str(o) for o in objs], cwd=LEAN, timeout=600)
-            tmp.rename(exe)
-        return [str(exe)]
+        with flock("registry-judge"):
+            return _build_judge_locked()
     except Exception as e:  # fall back to the interpreter (slower, same judgement)
         log("[registry] compiled judge unavailable (%s); using `lean --run`" % str(e)[:200])
         return ["lake", "env", "lean", "--run", str(LEAN / "OVM" / "Registry" / "Driver.lean")]
+
+
+def _build_judge_locked():
+    with flock("lake"):
+        run(["lake", "build"] + ["OVM.Registry.%s:o" % m for m in JUDGE_MODULES], cwd=LEAN, timeout=1800)
+    objs = []
+    for m in JUDGE_MODULES:
+        cands = sorted((LEAN / ".lake" / "build" / "ir" / "OVM" / "Registry").glob(m + ".c.o*"))
+        cands = [c for c in cands if c.suffix in (".export", ".o", ".noexport") and not c.name.endswith((".hash", ".trace"))]
+        pick = next((c for c in cands if c.name.endswith(".export")), cands[0] if cands else None)
+        if pick is None:
+            raise RuntimeError("no object file for " + m)
+        objs.append(pick)
+    key = sha(*[o.read_bytes() for o in objs])
+    exe = WORK / ("propjudge-" + key)
+    if not exe.exists():
+        for old in WORK.glob("propjudge-*"):
+            old.unlink()
+        tmp = exe.with_suffix(".tmp")
+        run(["lake", "env", "leanc", "-o", str(tmp)] + [str(o) for o in objs], cwd=LEAN, timeout=600)
+        tmp.rename(exe)
+    return [str(exe)]
+
+
 
 
 class Tools:
@@ -427,10 +434,5 @@ def run_check(ctx, pid, theorems_min=1):
             "(C13/C14 do not specify topology, only that other meshes do not change)",
             "fast deletion is switched off on every mesh (order-preserving erase)",
         ])
-    # keep the work directory small
-    for f in judged_files:
-        try:
-            if Path(f).stat().st_size > 50_000_000:
-                Path(f).unlink()
-        except OSError:
-            pass
+    # the traces are reproducible from the seed; replays carry everything needed
+    shutil.rmtree(tools.dir, ignore_errors=True)
